@@ -2,9 +2,11 @@
    check_step_map / check_step: acceptance implies that the listed outputs of the old and
    of the new cone have the same value under every compared leaf vector (cone semantics),
    hence the same circuit value (Sem.Eval) whenever the leaves carry such a vector.
-   check_subst: the care-set substitution theorem - with the frame conditions, every gate
-   that survives the step keeps its value under every assignment whose leaf vector is in
-   the compared set. *)
+   check_subst: the care-set substitution theorem - with the frame conditions (the circuit
+   after the step is acyclic, the leaves survive, untouched gates do not read replaced
+   internal gates), every gate that survives the step keeps its value under every assignment
+   whose leaf vector is in the compared set.  The proof is an induction along the checked
+   operands-first order of the NEW circuit, so leaves may well lie above other cone outputs. *)
 Require Import Cirbo.Model.Base Cirbo.Model.Gate Cirbo.Model.Den Cirbo.Model.Circuit Cirbo.Model.Traverse
         Cirbo.Model.Eval Cirbo.Model.Sem Cirbo.Model.ConeSem Cirbo.Model.PatternSim
         Cirbo.Model.SubcircuitValidator.
